@@ -105,3 +105,28 @@ func (c *Ctx) funcDecl(rel, recv, name string) (*ast.FuncDecl, *packages.Package
 }
 
 var _ = types.Typ
+
+// compositeElts returns the key/value expression pairs of a composite literal.
+func compositeElts(e ast.Expr) [][2]ast.Expr {
+	cl, ok := e.(*ast.CompositeLit)
+	if !ok {
+		return nil
+	}
+	var out [][2]ast.Expr
+	for _, el := range cl.Elts {
+		if kv, ok := el.(*ast.KeyValueExpr); ok {
+			out = append(out, [2]ast.Expr{kv.Key, kv.Value})
+		}
+	}
+	return out
+}
+
+func exprIdent(e ast.Expr) string {
+	switch x := e.(type) {
+	case *ast.Ident:
+		return x.Name
+	case *ast.SelectorExpr:
+		return exprIdent(x.X) + "." + x.Sel.Name
+	}
+	return ""
+}
